@@ -291,7 +291,13 @@ func (e *Enc) intOp(fr *Frame, op token.Token, x, y T, ta, tb, tr types.Type, gu
 	case token.REM:
 		e.obligeAssume("div", e.srcLabel(pos, "div"), guard, Not(Eq(y, IntLit64(IntS, 0))), "divisor != 0", pos)
 		q := e.define(tdiv(x, y), "q")
-		return e.define(T{IntS, app("-", x.E, app("*", y.E, q.E))}, "rem")
+		r := e.define(T{IntS, app("-", x.E, app("*", y.E, q.E))}, "rem")
+		if _, lit := isLit(y); !lit && e.quantDepth == 0 {
+			// linear consequences of the definition for a symbolic divisor (solvers are weak on
+			// nonlinear mod): 0 <= x < y ==> r = x ;  y <= x < 2y ==> r = x - y ; y > 0 && x >= 0 ==> 0 <= r < y
+			e.assert(Implies(guard, T{BoolS, fmt.Sprintf("(and (=> (and (<= 0 %[1]s) (< %[1]s %[2]s)) (= %[3]s %[1]s)) (=> (and (<= %[2]s %[1]s) (< %[1]s (* 2 %[2]s))) (= %[3]s (- %[1]s %[2]s))) (=> (and (< 0 %[2]s) (<= 0 %[1]s)) (and (<= 0 %[3]s) (< %[3]s %[2]s))))", x.E, y.E, r.E)}))
+		}
+		return r
 	case token.SHL:
 		if v, ok := isLit(y); ok && v.Sign() >= 0 && v.Cmp(big.NewInt(64)) < 0 {
 			return chk(T{IntS, app("*", x.E, pow2(int(v.Int64())).String())}, "<<")
